@@ -20,7 +20,7 @@ class CFG:
         self.entry = self._new("ENTRY", "entry")
         self.exit = self._new("EXIT", "exit")
         self.raise_exit = self._new("RAISE", "raise-exit")
-        self.branch: Dict[int, Dict[str, int]] = {}  # test node -> {"true": first node, "false": first node}
+        self.branch: Dict[int, Dict[str, object]] = {}  # test node -> {"true": successors, "false": successors | None}
         self._handlers: List[List[int]] = []
         body = fn.body if not isinstance(fn, ast.Lambda) else [ast.Return(value=fn.body)]
         ends = self._seq(body, [self.entry], None, None)
@@ -56,8 +56,13 @@ class CFG:
         if isinstance(st, ast.If):
             t = self._new(st.test, "test")
             self._link(preds, t)
+            before = set(self.succ[t])
             a = self._seq(st.body, [t], brk, cont)
+            mid = set(self.succ[t])
             b = self._seq(st.orelse, [t], brk, cont) if st.orelse else [t]
+            after = set(self.succ[t])
+            # successors taken when the test is true / false (None: the fall-through, i.e. every other successor)
+            self.branch[t] = {"true": mid - before, "false": (after - mid) if st.orelse else None}
             return a + b
         if isinstance(st, (ast.For, ast.While)):
             h = self._new(st, "loop")
@@ -249,3 +254,47 @@ def _own_exprs(st):
     if isinstance(st, ast.stmt):
         return [st]
     return []
+
+
+def polarity(test: ast.AST, name: str) -> int:
+    """+1 if `test` is true exactly when the variable `name` is truthy, -1 if exactly when it is falsy, 0 if unknown."""
+    if isinstance(test, ast.Name) and test.id == name:
+        return 1
+    if isinstance(test, ast.UnaryOp) and isinstance(test.op, ast.Not):
+        return -polarity(test.operand, name)
+    if isinstance(test, ast.Compare) and len(test.ops) == 1 and isinstance(test.left, ast.Name) and test.left.id == name and isinstance(test.comparators[0], ast.Constant):
+        c = test.comparators[0].value
+        if c is True or c is False:
+            if isinstance(test.ops[0], (ast.Is, ast.Eq)):
+                return 1 if c is True else -1
+            if isinstance(test.ops[0], (ast.IsNot, ast.NotEq)):
+                return -1 if c is True else 1
+    if isinstance(test, ast.Call) and isinstance(test.func, ast.Name) and test.func.id == "bool" and len(test.args) == 1 and not test.keywords:
+        return polarity(test.args[0], name)
+    return 0
+
+
+def reaches_under(cfg: "CFG", a: int, b: int, avoid, name: str, value: bool) -> bool:
+    """Is there a path a -> b (not through `avoid`) on which every `if` that tests the never-reassigned boolean
+    variable `name` takes the branch consistent with name == value?"""
+    seen = {a}
+    st = [a]
+    while st:
+        q = st.pop()
+        succ = cfg.succ[q]
+        if cfg.kind.get(q) == "test" and q in cfg.branch:
+            pol = polarity(cfg.nodes[q], name)
+            if pol:
+                taken = (pol == 1) == value
+                br = cfg.branch[q]
+                if taken:
+                    succ = br["true"]
+                else:
+                    succ = br["false"] if br["false"] is not None else (cfg.succ[q] - br["true"])
+        for r in succ:
+            if r == b:
+                return True
+            if r not in seen and r not in avoid:
+                seen.add(r)
+                st.append(r)
+    return False
